@@ -4,6 +4,18 @@ go 1.25.0
 
 require github.com/bbockelm/cedar v0.0.0
 
-require github.com/PelicanPlatform/classad v0.4.0 // indirect
+require (
+	github.com/PelicanPlatform/classad v0.4.0
+	github.com/golang-jwt/jwt/v5 v5.3.0 // indirect
+	github.com/hashicorp/go-uuid v1.0.3 // indirect
+	github.com/jcmturner/aescts/v2 v2.0.0 // indirect
+	github.com/jcmturner/dnsutils/v2 v2.0.0 // indirect
+	github.com/jcmturner/gofork v1.7.6 // indirect
+	github.com/jcmturner/gokrb5/v8 v8.4.4 // indirect
+	github.com/jcmturner/rpc/v2 v2.0.3 // indirect
+	github.com/pkg/errors v0.9.1 // indirect
+	golang.org/x/crypto v0.53.0
+	golang.org/x/net v0.55.0 // indirect
+)
 
 replace github.com/bbockelm/cedar => /repo
